@@ -77,9 +77,18 @@ func c05Case(c *mon.Ctx, i int, record bool) {
 	}
 	if nU := len(W.Objs) + c.Pick(12000, 400000); i >= nU {
 		// directed families, sampled from the end so the SAN-sibling family is always complete
-		k := directedCount(c) - 1 - (i-nU)*c.Pick(6, 1)
-		if nTail := len(sanSeeds)*2 + genPoolSize(); i-nU < nTail { // the two small families at the end are always complete
-			k = directedCount(c) - 1 - (i - nU)
+		// the small families at the end of the enumeration are run completely; what is left of this part's budget
+		// (a sixth of the enumeration at quick, all of it at thorough) is spread evenly over the two big families
+		dC, nTail, j := directedCount(c), directedSmallTail(c), i-nU
+		budget := dC / c.Pick(6, 1)
+		k := dC - 1 - j
+		if j >= nTail {
+			rest, left := dC-nTail, budget-nTail
+			if left <= 0 {
+				return
+			}
+			stride := (rest + left - 1) / left
+			k = rest - 1 - (j-nTail)*stride - int(uint64(c.Seed)%uint64(stride))
 		}
 		if k < 0 {
 			return
